@@ -611,6 +611,26 @@ def bind_slice_dest(f, ctx):
     ctx.env[dest[0]['v']] = ('dest',)
 
 
+def norm_cmp(c):
+    """an order comparison in canonical form (op, a, b) with op in Gt / Ge / Eq / Ne: `a < b` is `b > a`, `a <= b` is
+    `b >= a`, `!(a <= b)` is `a > b`, ...; None for anything else"""
+    c = strip(c)
+    neg = False
+    while isinstance(c, tuple) and c and c[0] == 'un' and c[1] == 'Not':
+        c = strip(c[2])
+        neg = not neg
+    if not (isinstance(c, tuple) and c and c[0] == 'bin' and len(c) >= 4 and c[1] in ('Lt', 'Le', 'Gt', 'Ge', 'Eq', 'Ne')):
+        return None
+    op, a, b = c[1], strip(c[2]), strip(c[3])
+    if neg:
+        op = {'Lt': 'Ge', 'Le': 'Gt', 'Gt': 'Le', 'Ge': 'Lt', 'Eq': 'Ne', 'Ne': 'Eq'}[op]
+    if op == 'Lt':
+        op, a, b = 'Gt', b, a
+    elif op == 'Le':
+        op, a, b = 'Ge', b, a
+    return (op, a, b)
+
+
 def role_name(facts, role):
     g = roles(facts).get(role)
     return tname(g['path']) if g else '<missing %s>' % role
